@@ -169,6 +169,10 @@ ClassyX(i) == {SVObj(i), SVStr(i), RegObj(i), SMObj(i), SafeStr(i), TRStr(i, <<A
                \* redactables whose content is opaque (secret under Unsafe): in typed and untyped containers
                TSlice(i, <<TRStr(i + 1, P(i + 1) \o StartM \o P(i + 2) \o EndM), UInt(i + 3)>>),
                TTSlice(i, <<TRStr(i + 1, P(i + 1) \o StartM \o P(i + 2) \o EndM), TRStr(i + 3, P(i + 3))>>),
+               \* arrays: [2]RedactableString, [2]string, a pointer to [2]int, an array of uint8-kinded Stringers
+               TTArray(i, <<TRStr(i + 1, P(i + 1) \o StartM \o P(i + 2) \o EndM), TRStr(i + 3, P(i + 3))>>),
+               TTArray(i, <<UStr(i + 1), UStr(i + 2)>>), TPtrTo(i + 3, TTArray(i, <<UInt(i + 1), UInt(i + 2)>>)),
+               TTArray(i, <<TObj(i + 1, {"ST", "U8"}, <<>>, <<>>, P(i + 1), <<>>), TObj(i + 2, {"ST", "U8"}, <<>>, <<>>, P(i + 2), <<>>)>>),
                TStruct(i, <<TRStr(i + 1, P(i + 1)), SafeStr(i + 2), UStr(i + 4)>>, <<FALSE, FALSE, FALSE>>),
                TObj(i, {"GS", "ST"}, <<>>, <<>>, P(i), <<>>)}
 WrapKinds == {"U", "S", "US", "SU", "UUS", "SSU", "USU", "inU", "inS", "SstU", "SrvU", "UstS", "UrvS"}
